@@ -501,6 +501,8 @@ func (e *Exec) enterLoop(fr *Frame, li *loopInfo, pre *State) *State {
 		t := e.tm.FreshTyped(av.P.cell.name+"@loop", av.P.cell.typ, &facts)
 		st.cells[av.P.cell] = t
 		e.assume(st, c.And(facts...))
+		// whatever the local refers to was allocated before this point
+		e.assume(st, e.oldRefs(st, t, av.P.cell.typ))
 	}
 	li.phiFresh = map[*ssa.Phi]*Term{}
 	for _, ins := range li.head.Instrs {
@@ -616,6 +618,7 @@ func (e *Exec) instantiateLoopFrames(ts []*Term) ([]*Term, []*Term) {
 				}
 				done[[2]int{id, t.args[1].id}] = true
 				inst := c.Subst(lf.body, lf.bv, t.args[1], map[int]*Term{})
+				e.refFacts(inst, map[int]bool{})
 				insts = append(insts, inst)
 				work = append(work, inst)
 			}
@@ -627,6 +630,31 @@ func (e *Exec) instantiateLoopFrames(ts []*Term) ([]*Term, []*Term) {
 		visit(t)
 	}
 	return out, insts
+}
+
+// refFacts: sub-object and element refs built under a binder carry no facts; once instantiated they need them.
+func (e *Exec) refFacts(t *Term, seen map[int]bool) {
+	if seen[t.id] || t.bound {
+		return
+	}
+	seen[t.id] = true
+	if t.kind == kDef && t.def != nil {
+		e.refFacts(t.def, seen)
+	}
+	for _, a := range t.args {
+		e.refFacts(a, seen)
+	}
+	if t.kind == kApp && len(t.args) == 2 && len(e.c.facts[t.id]) == 0 {
+		c := e.c
+		switch t.op {
+		case "elem":
+			c.AddFact(t, c.And(c.Eq(c.App("elem.par", "Int", t), t.args[0]), c.Eq(c.App("elem.idx", "Int", t), t.args[1]), c.Lt(t, c.Int(0)),
+				c.App("elem.isElem", "Bool", t)))
+		case "sub":
+			c.AddFact(t, c.And(c.Eq(c.App("sub.par", "Int", t), t.args[0]), c.Eq(c.App("sub.fld", "Int", t), t.args[1]), c.Lt(t, c.Int(0)),
+				c.Eq(c.App("elem.isElem", "Bool", t), c.False())))
+		}
+	}
 }
 
 // loopFrame: every write inside the loop is checked against the function's modifies clause where it happens, so
@@ -984,7 +1012,7 @@ func (e *Exec) rangeSnapshots(fr *Frame, st *State, ins ssa.Instruction) {
 	}
 	var pp token.Position
 	for _, a := range fr.spec.Asserts {
-		if a.SinceEnd == 0 {
+		if a.SinceEnd == 0 || a.Dead {
 			continue
 		}
 		key := fmt.Sprintf("%s:%d", a.SinceFile, a.SinceOff)
@@ -1015,7 +1043,7 @@ func (e *Exec) siteAsserts(fr *Frame, st *State, pos token.Pos, kind int) {
 	if kind == 1 {
 		// snapshot points for "since call k f": the state just before that call
 		for _, a := range fr.spec.Asserts {
-			if a.SinceCallee != "" && a.SinceEnd == 0 && a.SinceFile == pp.Filename && a.SinceOff == pp.Offset {
+			if !a.Dead && a.SinceCallee != "" && a.SinceEnd == 0 && a.SinceFile == pp.Filename && a.SinceOff == pp.Offset {
 				if fr.snaps == nil {
 					fr.snaps = map[string]*State{}
 				}
@@ -1024,6 +1052,9 @@ func (e *Exec) siteAsserts(fr *Frame, st *State, pos token.Pos, kind int) {
 		}
 	}
 	for _, a := range fr.spec.Asserts {
+		if a.Dead {
+			continue
+		}
 		switch kind {
 		case 0:
 			if !a.AtReturn {
@@ -1385,7 +1416,7 @@ func (e *Exec) next(fr *Frame, st *State, x *ssa.Next) {
 	}
 	dom := c.Select(e.heapGet(st, dn, arrSort("Int", arrSort(ks, "Bool"))), m)
 	val := c.Select(e.heapGet(st, vn, arrSort("Int", arrSort(ks, vs))), m)
-	e.assume(st, c.Implies(ok, c.Select(dom, k.T)))
+	e.assume(st, c.Implies(ok, c.And(c.Select(dom, k.T), c.Not(c.Eq(m, c.Int(0)))))) // a nil map has no keys
 	v := e.typed(c.Select(val, k.T), mt.Elem())
 	if hasRefs(mt.Elem()) {
 		e.assume(st, e.oldRefs(st, v, mt.Elem()))
